@@ -258,4 +258,10 @@ def handleLife (toks : List String) : String :=
       s!"grow={grow} spin={boolStr (decide spin)}"
   | _ => "bad-op"
 
+/-- e2e prediction for `burst <carrier> <conns> <size>`: every connection delivers all data, then end-of-stream -/
+def handleBurst (toks : List String) : String :=
+  match toks with
+  | [_, _, _] => "ok"
+  | _ => "bad-op"
+
 end SA.Pipe
